@@ -47,7 +47,7 @@ try:
                 if os.path.isfile(os.path.join(src, f)) and f.endswith(".go"):
                     shutil.copy(os.path.join(src, f), os.path.join(wt, copy_to, f))
     place()
-    run = run.replace("/tmp/mut4-%s" % prop, wt).replace("/tmp/mut3-%s" % prop, wt).replace("/tmp/mut2-%s" % prop, wt).replace("/tmp/mut-%s" % prop, wt)
+    run = run.replace("/tmp/mut5-%s" % prop, wt).replace("/tmp/mut4-%s" % prop, wt).replace("/tmp/mut3-%s" % prop, wt).replace("/tmp/mut2-%s" % prop, wt).replace("/tmp/mut-%s" % prop, wt)
     res["demo_cmd"] = run
     rc0, out0 = sh(run, cwd=wt, timeout=900)
     rc0 = 1 if demo_failed(rc0, out0) else 0
